@@ -360,6 +360,9 @@ impl Task {
     }
     fn drop_conn(&mut self) {
         if let Some(c) = self.conn.take() {
+            // what the connection's loss detection made of the network, for the clean-network clause
+            let st = c.stats();
+            self.sync("conn_stats", json!({"n": st.path.lost_packets.min(1_000_000), "off": st.path.sent_packets.min(1_000_000)}));
             drop(c);
             let left = self.hc_add(self.c, self.side, -1);
             self.handle_dropped("conn", self.c, self.side, -1, left);
